@@ -1,5 +1,6 @@
 import Hoot.Model.Req
-import Hoot.Model.ReqParse
+import Hoot.Model.RespFast
+import Hoot.Model.ReqFast
 
 /-! Prototype: the Flow typestate machine (post-repair semantics), response side, redirects -/
 
